@@ -497,8 +497,8 @@ func GenC05(seed, run uint64, ok CompileOK) *Scenario {
 			case 1:
 				st.Op = "eval"
 			case 2:
-				st.Op = "compile" // compile the text concurrently, then use it once
-				st.N = r.Intn(2)
+				st.Op = "compile" // compile the text concurrently, then use it once (2 = through the deprecated package-level Select)
+				st.N = r.Intn(3)
 			case 3:
 				st.Op = "mustbad"
 			}
